@@ -982,12 +982,14 @@ def op_knobs(w, ins):
 def op_arm(w, ins):
     """S1: let the repository's own trigger fire after j more creations."""
     m = ins.get('m', 0)
-    g = w.mgrs[m]
+    return arm_manager(w, w.mgrs[m], ins['j'])
+
+
+def arm_manager(w, g, j):
     B = seams.DD.bdd
     if not g.api.configure()['reordering']:
         return 'skip'
     n = len(g.raw)
-    j = ins['j']
     f = B.REORDER_FACTOR
     x = (n + j) / f
     # make sure `len >= f * x` first holds at len == n + j
